@@ -312,7 +312,7 @@ func genRequestPath(routes []rm.Route) *rapid.Generator[string] {
 var reqMethods = append(append([]string{}, rm.Methods...), "GET", "GET", "POST", "FOO", "", "get", "*")
 
 func TestGenerated(t *testing.T) {
-	rt.Check(t, 4000, 400000, func(t *rapid.T) {
+	rt.Check(t, 4000, 1500000, func(t *rapid.T) {
 		routes, rejected, ok := genTable(t)
 		if !ok {
 			ev.Inconclusive(1)
